@@ -92,6 +92,18 @@ theorem sieve_exact_when_working_set_fits (c : Int) (ops : List Op) (U : List Na
     (by simp [Sieve.new, keys]) (fun l hn hs => by
       rw [hcap]; exact Nat.le_trans (List.Nodup.length_le_of_subset hn hs) hlen) ops hU
 
+/-- The same for the map cache (which never evicts but REFUSES new keys when full): if the keys the history puts lie
+in a list of at most `capacity` keys, nothing is ever refused and the trace equals the ideal map's. -/
+theorem nemap_exact_when_working_set_fits (c : Int) (ops : List Op) (U : List Nat)
+    (hU : putKeys ops ⊆ U) (hlen : (U.length : Int) ≤ c) :
+    (NeMap.new c).trace ops = idealTrace [] ops := by
+  have hcap : (NeMap.new c).cap = c := rfl
+  exact NeMap.exact_trace U (NeMap.inv_new c) (fun x => by simp [NeMap.new, NeMap.lookup, Ideal.get])
+    (by simp [NeMap.new, skeys]) (fun l hn hs => by
+      rw [hcap]
+      have := List.Nodup.length_le_of_subset hn hs
+      omega) ops hU
+
 /-! Non-vacuity: the three `Put` cases and the eviction witness occur on reachable states; the counters move. -/
 example :
     let s := (Sieve.new 2).run [Op.put 1 10, .put 2 20, .get 1]
@@ -115,5 +127,13 @@ example :
 example :
     let ops := [Op.put 1 10, .put 2 20, .put 3 30, .get 1]
     (Sieve.new 2).trace ops ≠ idealTrace [] ops := by decide
+example :
+    let ops := [Op.put 1 10, .put 2 20, .get 1, .put 1 11, .del 2, .get 2, .get 1, .put 2 21, .get 2]
+    putKeys ops ⊆ [1, 2] ∧ (([1, 2] : List Nat).length : Int) ≤ 2 ∧
+    ((NeMap.new 2).trace ops).map (·.2) =
+      [Out.unit, .unit, .hit 10, .unit, .unit, .miss, .hit 11, .unit, .hit 21] := by decide
+example :
+    let ops := [Op.put 1 10, .put 2 20, .put 3 30, .get 3]
+    (NeMap.new 2).trace ops ≠ idealTrace [] ops := by decide
 
 end Dawgs.C16.Props
